@@ -189,7 +189,8 @@ def _misc(draw, name):
     if name == "get_rng":
         return (), {}
     if name == "pick_four_unique_nodes_quickly":
-        return (draw(st.integers(4, 9)),), {}
+        # every size class: tiny (many rejections), beyond int32 for n**4 (n >= 216), large
+        return (draw(st.one_of(st.integers(4, 9), st.integers(200, 260), st.integers(1000, 50000))),), {}
     raise KeyError(name)
 
 
@@ -222,6 +223,12 @@ def registered():
     return REGISTERED
 
 
+def _seeds():
+    """integer seeds: mostly in [0, 2^32), sometimes negative or >= 2^32 (get_rng documents any hashable seed and folds these);
+    repeated small values are common so that the same seed is used several times within one history"""
+    return st.one_of(st.integers(0, 5), gen.seeds(), st.sampled_from([-1, -12345, 2 ** 32, 2 ** 40 + 17, -2 ** 31]))
+
+
 @st.composite
 def cases(draw, name):
     args, kwargs = draw(arg_strategy(name))
@@ -234,7 +241,7 @@ def cases(draw, name):
         elif kind == "draw":
             ops.append(["draw", draw(st.sampled_from(["rand", "randint", "permutation"])), draw(st.integers(1, 7))])
         elif kind == "seeded":
-            ops.append(["seeded", draw(gen.seeds())])
+            ops.append(["seeded", draw(_seeds())])
         else:
             ops.append(["unseeded", draw(st.booleans())])
     return {"fn": name, "args": list(args), "kwargs": kwargs, "ops": ops}
@@ -314,13 +321,16 @@ def check(case, ctx):
             if r1.status == "timeout":
                 return fails
             r2 = run(seed=s)
-            r3 = run(seed=np.random.RandomState(s))
             d, how = compare.outcomes_equal(r1, r2)
             if d:
                 fails.append(Failure("%s:same-seed-different-result" % name, "step %d, seed %d: %s" % (t, s, d), case))
-            d, how = compare.outcomes_equal(r1, r3)
-            if d:
-                fails.append(Failure("%s:int-seed-differs-from-RandomState-seed" % name, "step %d, seed %d: %s" % (t, s, d), case))
+            if 0 <= s < 2 ** 32:          # RandomState(int) exists only for seeds in [0, 2^32)
+                r3 = run(seed=np.random.RandomState(s))
+                d, how = compare.outcomes_equal(r1, r3)
+                if d:
+                    fails.append(Failure("%s:int-seed-differs-from-RandomState-seed" % name, "step %d, seed %d: %s" % (t, s, d), case))
+            else:
+                ctx.label("out-of-range-int-seed")
             if not _state_eq(np.random.get_state(), model.get_state()):
                 fails.append(Failure("%s:seeded-call-touched-global-generator" % name,
                                      "step %d: np.random state changed during a call with seed=%d" % (t, s), case))
@@ -380,7 +390,7 @@ def cases_mixed(draw):
             a, kw = draw(arg_strategy(fn))
             call = {"fn": fn, "args": list(a), "kwargs": kw}
             if kind == "seeded":
-                ops.append(["seeded", draw(gen.seeds()), call])
+                ops.append(["seeded", draw(_seeds()), call])
             else:
                 ops.append(["unseeded", draw(st.booleans()), call])
     return {"fn": "<mixed>", "ops": ops}
